@@ -58,7 +58,7 @@ PROPS["C05"] = pbt(
     quick={"cases": 400000},
     thorough={"cases": 8000000},
     floors={"indented_insert": 0.30, "second_comment_char": 0.30, "insert_after_entry": 0.30,
-            "delim_nonblank": 0.10, "delim_blank": 0.10, "delim_mixed": 0.10, "delim_none": 0.05},
+            "delim_nonblank": 0.10, "delim_blank": 0.08, "delim_mixed": 0.08, "delim_none": 0.04, "opt_python": 0.05, "opt_join": 0.05},
 )
 
 PROPS["C03"] = pbt(
@@ -120,7 +120,7 @@ PROPS["C13"] = pbt(
     quick={"cases": 300000},
     thorough={"cases": 6000000},
     floors={"kind_missing_bracket": 0.12, "kind_text_after_section": 0.12, "kind_empty_section_name": 0.12,
-            "kind_missing_delimiter": 0.04, "not_first_line": 0.30, "tree_member": 0.20, "in_dropin": 0.10},
+            "kind_missing_delimiter": 0.03, "kind_missing_delimiter_later": 0.03, "directly_after_entry": 0.07, "not_first_line": 0.30, "tree_member": 0.20, "in_dropin": 0.10},
 )
 
 PROPS["C06"] = pbt(
